@@ -288,6 +288,11 @@ func Run(input string) string {
 			return "BADCASE"
 		}
 		return psimCase(t)
+	case "rng":
+		if len(t) != 4 {
+			return "BADCASE"
+		}
+		return rangeCase(t)
 	case "xfer":
 		if len(t) != 7 {
 			return "BADCASE"
